@@ -20,15 +20,12 @@ Definition dflt_of (pre : option tok) (c : ascii) (r : chars) : option (list tok
   else None.
 
 Lemma lex_D c r : lex LD (c :: r) = dflt_of None c r.
-Proof. unfold dflt_of, la2. destruct r as [|d [|e r2]]; cbn [lex skipn]; repeat (destruct (leq _ _) || destruct (is_punct _) || destruct (is_ign _) || destruct (is_wordc _)); reflexivity. Qed.
+Proof. destruct r as [|d [|e r2]]; reflexivity. Qed.
 
 Lemma lex_W acc c r : lex (LW acc) (c :: r) =
   if leq c "." then (if la2 "." r then dflt_of (Some (TW (rev acc))) c r else lex (LW (c :: acc)) r)
   else if is_wordc c then lex (LW (c :: acc)) r else dflt_of (Some (TW (rev acc))) c r.
-Proof.
-  unfold dflt_of, la2. destruct r as [|d [|e r2]]; cbn [lex skipn];
-    repeat (destruct (leq _ _) || destruct (is_punct _) || destruct (is_ign _) || destruct (is_wordc _)); reflexivity.
-Qed.
+Proof. destruct r as [|d [|e r2]]; reflexivity. Qed.
 
 Lemma lex_S acc c r : lex (LS acc) (c :: r) =
   if leq c lq then cons_tok (TS (rev acc)) (lex LD r)
